@@ -197,6 +197,7 @@ var a07Ctx = context.Background()
 var (
 	a07nAppendOK, a07nConflictID, a07nConflictKey, a07nConflictCross, a07nFollower, a07nFollowerBad atomic.Int64
 	a07nTrimRemoved, a07nTrimPartial, a07nLease, a07nReopen, a07nCrossBatch, a07nLookupHit          atomic.Int64
+	a07nAdoptOver, a07nReopenPending atomic.Int64
 	a07nRemovedMiss, a07nChecks                                                                     atomic.Int64
 )
 
@@ -403,6 +404,14 @@ func (in *a07Inst) retention(ci int, ks ...string) []string {
 			if len(c.rows) > 0 {
 				out = append(out, "ret:"+c.name+":lim")
 			}
+		case "over": // adopt a boundary beyond the log end, no physical trim yet
+			if len(c.rows) > 0 {
+				out = append(out, "ret:"+c.name+":over")
+			}
+		case "overlim": // the same, followed by a bounded physical trim that leaves rows
+			if len(c.rows) >= 2 {
+				out = append(out, "ret:"+c.name+":overlim")
+			}
 		}
 	}
 	return out
@@ -413,7 +422,7 @@ func a07AlphabetMain(in *a07Inst) []string {
 	evs := []string{"al:A:m1", "al:A:m2", "al:A:m4", "al:A:m5", "al:A:m0", "alb:A:m2+m3"}
 	evs = append(evs, in.precond(0, "ala:A:m3", "fo:A:m3", "foh:A:m6")...)
 	evs = append(evs, "fobad:A:m3", "al:B:m1", "al:B:m6", "xb:m2|m3")
-	evs = append(evs, in.retention(0, "1", "all", "lim")...)
+	evs = append(evs, in.retention(0, "1", "all", "lim", "over", "overlim")...)
 	if a.leo > 0 {
 		evs = append(evs, "ck:A")
 		if in.last() != "lease:A" {
@@ -428,11 +437,8 @@ func a07AlphabetMain(in *a07Inst) []string {
 
 func a07AlphabetPhysical(in *a07Inst) []string {
 	a, b := in.ch[0], in.ch[1]
-	evs := []string{"al:A:m1", "al:A:m5", "alb:A:m2+m3", "al:B:m1"}
-	evs = append(evs, in.retention(0, "1", "all")...)
-	if a.leo > 0 {
-		evs = append(evs, "ck:A")
-	}
+	evs := []string{"al:A:m1", "alb:A:m2+m3", "al:B:m1"}
+	evs = append(evs, in.retention(0, "1", "all", "over", "overlim")...)
 	if (a.leo > 0 || b.leo > 0) && !in.private && len(in.hist) >= 2 {
 		evs = append(evs, "reopen!")
 	}
@@ -639,20 +645,36 @@ func (in *a07Inst) applyRetention(evl string, p []string) (string, error) {
 		through = c.rows[0].seq
 	case "lim":
 		opts.MaxMessages = 1
+	case "over":
+		through = c.leo + 2
+	case "overlim":
+		through = c.leo + 2
+		opts.MaxMessages = 1
 	}
 	retained, err := c.st.AdoptRetentionBoundary(a07Ctx, through, "verif")
 	if err != nil {
 		return "", mc.Violatef("C07:adapter-adopt-error", "%s: AdoptRetentionBoundary(%d): %v", evl, through, err)
 	}
+	if through > c.leo {
+		// adopting a boundary beyond the log end moves the log end (RetainedMaxSeq)
+		c.leo = through
+		a07nAdoptOver.Add(1)
+	}
+	if through > c.adopted {
+		c.adopted = through
+	}
 	if retained != c.leo {
 		return "", mc.Violatef("C07:adapter-adopt-retained-max-mismatch", "%s: AdoptRetentionBoundary(%d) reports retained max %d at reference LEO %d", evl, through, retained, c.leo)
+	}
+	if p[2] == "over" {
+		return "adopt-over", nil
 	}
 	res, err := c.st.TrimMessagesThrough(a07Ctx, through, opts)
 	if err != nil {
 		return "", mc.Violatef("C07:adapter-trim-error", "%s: TrimMessagesThrough(%d): %v", evl, through, err)
 	}
 	want := store.RetentionTrimResult{}
-	if p[2] == "lim" {
+	if p[2] == "lim" || p[2] == "overlim" {
 		first := c.rows[0].seq
 		more := len(c.rows) > 1
 		in.modelRemove(ci, func(r a07Row) bool { return r.seq != first })
@@ -721,6 +743,11 @@ func (in *a07Inst) applyReopen(evl string) (string, error) {
 	in.hist = hist
 	in.kind = "reopen"
 	a07nReopen.Add(1)
+	for _, c := range in.ch {
+		if n := len(c.rows); n > 0 && c.adopted > c.rows[n-1].seq {
+			a07nReopenPending.Add(1)
+		}
+	}
 	return "reopen!", nil
 }
 
@@ -872,10 +899,27 @@ func (in *a07Inst) checkChan(ci int) error {
 		}
 	}
 	if all, err := st.ReadCommitted(a07Ctx, store.ReadCommittedRequest{FromSeq: 1}); err == nil {
-		for i, m := range all.Messages {
-			if m.MessageSeq != c.start+uint64(i) || (i == len(all.Messages)-1 && m.MessageSeq != c.leo) {
+		// rows at or below the adopted boundary ascend from the physical start; every
+		// sequence above the boundary up to the log end is present exactly once
+		next, wantAbove := c.start, c.adopted+1
+		if c.start > wantAbove {
+			wantAbove = c.start
+		}
+		for _, m := range all.Messages {
+			bad := false
+			if m.MessageSeq <= c.adopted {
+				bad = m.MessageSeq < next
+				next = m.MessageSeq + 1
+			} else {
+				bad = m.MessageSeq != wantAbove
+				wantAbove++
+			}
+			if bad {
 				return mc.Violatef(in.fp("ReadCommitted", "not-contiguous"), "%s: full read %s is not contiguous from the retained start to the log end", where, a07Brief(all.Messages))
 			}
+		}
+		if c.leo >= wantAbove {
+			return mc.Violatef(in.fp("ReadCommitted", "not-contiguous"), "%s: full read %s ends below the log end", where, a07Brief(all.Messages))
 		}
 	}
 	// ---- committed reads, reverse
@@ -1027,7 +1071,7 @@ func TestVerifC07Adapter(t *testing.T) {
 	}
 	systems := []sys{
 		{&a07Cfg{"adapter-main", a07AlphabetMain}, ev.Pick(r, 3, 4), "<=21 events/state through MessageDBFactory"},
-		{&a07Cfg{"adapter-physical-reopen", a07AlphabetPhysical}, ev.Pick(r, 3, 4), "<=9 events/state, real factory close + reopen of a private database, at most once per path, never as one of the first two events"},
+		{&a07Cfg{"adapter-physical-reopen", a07AlphabetPhysical}, ev.Pick(r, 4, 5), "<=8 events/state (incl. retention boundaries adopted beyond the log end with and without a bounded physical trim), real factory close + reopen of a private database, at most once per path, never as one of the first two events"},
 	}
 	var total mc.Result
 	for _, s := range systems {
@@ -1059,6 +1103,8 @@ func TestVerifC07Adapter(t *testing.T) {
 	g("adapter-partial-trims", &a07nTrimPartial, 1)
 	g("adapter-lease-reacquisitions", &a07nLease, 10)
 	g("adapter-physical-reopens", &a07nReopen, 5)
+	g("adapter-boundaries-adopted-beyond-log-end", &a07nAdoptOver, 10)
+	g("adapter-physical-reopens-with-rows-below-a-boundary-beyond-the-log-end", &a07nReopenPending, 3)
 	g("adapter-cross-channel-batches", &a07nCrossBatch, 10)
 	g("adapter-lookups-hit", &a07nLookupHit, 100)
 	g("adapter-lookups-of-absent-ids-answered-not-found", &a07nRemovedMiss, 10)
